@@ -110,6 +110,13 @@ func (e *csEnv) randomEvent(rng *rand.Rand, ps []poolView) chain.M {
 		if p == nil || (p.S == 0 && p.T == 0) || p.S == 0 {
 			exact := int64(1 + rng.Intn(14))
 			ev["amt"], ev["amt2"] = exact, int64(1+rng.Intn(14))
+			if e.skew && tok != e.tokens[0] { // pools of very different depth on one standard denom
+				exact = int64(1 + rng.Intn(3))
+				ev["amt"], ev["amt2"] = exact, int64(1+rng.Intn(3))
+			} else if e.skew {
+				exact = int64(10 + rng.Intn(6))
+				ev["amt"], ev["amt2"] = exact, int64(8+rng.Intn(8))
+			}
 			ev["min1"] = pick(rng, 0, 0, exact, exact, exact+1)
 		} else {
 			exact := int64(1 + rng.Intn(8))
@@ -205,8 +212,13 @@ func (e *csEnv) randomEvent(rng *rand.Rand, ps []poolView) chain.M {
 	case x < 56:
 		ev := csEvent("Donate", u)
 		esc := p.esc
-		if rng.Intn(6) == 0 {
+		switch rng.Intn(12) {
+		case 0, 1:
 			esc = "esc-" + e.lpts[rng.Intn(len(e.lpts))]
+		case 2:
+			esc = "module"
+		case 3:
+			esc = "feepool" // blocked: the bank rejects the send
 		}
 		ev["to"], ev["denom"], ev["amt"] = esc, pick2(rng, e.std, tok), int64(1+rng.Intn(3))
 		return ev
@@ -216,7 +228,9 @@ func (e *csEnv) randomEvent(rng *rand.Rand, ps []poolView) chain.M {
 	to := u
 	switch y := rng.Intn(20); {
 	case y == 0:
-		to = "feepool"
+		to = "feepool" // blocked: rejected by the message server
+	case y == 1:
+		to = "module" // the coinswap module account is not blocked
 	case y < 9:
 		to = e.users[rng.Intn(len(e.users))]
 	}
@@ -283,8 +297,56 @@ func pick2(rng *rand.Rand, a, b string) string {
 	return b
 }
 
+// sandwich: within one block A sells, B sells the same way (with a bound taken
+// from the pre-block quote, from B's point of view: exact, loose, or none),
+// A sells the proceeds back.  Also used without B in between (round trip).
+func (e *csEnv) sandwich(rng *rand.Rand, ps []poolView) []chain.M {
+	var live []poolView
+	for _, p := range ps {
+		if p.S > 1 && p.T > 1 {
+			live = append(live, p)
+		}
+	}
+	if len(live) == 0 || len(e.users) < 2 {
+		return nil
+	}
+	p := live[rng.Intn(len(live))]
+	inD, outD, rin, rout := e.std, p.denom, p.S, p.T
+	if rng.Intn(2) == 0 {
+		inD, outD, rin, rout = p.denom, e.std, p.T, p.S
+	}
+	perm := rng.Perm(len(e.users))
+	a, b := e.users[perm[0]], e.users[perm[1]]
+	mk := func(who, i string, x int64, o string, y int64) chain.M {
+		ev := csEvent("Swap", who)
+		ev["to"], ev["inDenom"], ev["outDenom"], ev["amt"], ev["amt2"] = who, i, o, x, max1(y)
+		ev["hops"], ev["deadline"] = int64(1), e.now()+1
+		return ev
+	}
+	xa := int64(1 + rng.Intn(6))
+	ya := e.inPrice(xa, rin, rout)
+	if ya < 1 {
+		return nil
+	}
+	out := []chain.M{mk(a, inD, xa, outD, ya)}
+	rin2, rout2 := rin+xa, rout-ya
+	if rng.Intn(4) > 0 {
+		xb := int64(1 + rng.Intn(6))
+		quote := e.inPrice(xb, rin, rout) // what B saw before the block
+		got := e.inPrice(xb, rin2, rout2) // what B gets behind A
+		out = append(out, mk(b, inD, xb, outD, pick(rng, quote, got, 1)))
+		if got >= 1 && got >= out[1]["amt2"].(int64) {
+			rin2, rout2 = rin2+xb, rout2-got
+		}
+	}
+	back := e.inPrice(ya, rout2, rin2)
+	out = append(out, mk(a, outD, ya, inD, pick(rng, back, 1)))
+	return out
+}
+
 func csRandom(fl *drv.Flags, rng *rand.Rand, w *chain.TraceWriter) {
 	e := newEnv(fl)
+	e.skew = rng.Intn(3) == 0
 	e.start(w)
 	lim := fl.CfgInt("lim", 64)
 	for b := 0; b < fl.Len; b++ {
@@ -309,6 +371,9 @@ func csRandom(fl *drv.Flags, rng *rand.Rand, w *chain.TraceWriter) {
 		}
 		for j := 0; j < n; j++ {
 			pending = append(pending, e.randomEvent(rng, ps))
+		}
+		if sw := e.sandwich(rng, ps); sw != nil && rng.Intn(8) == 0 {
+			pending = sw
 		}
 		e.runBlock(pending, int64(1+rng.Intn(2)), w)
 		for _, p := range e.poolViews() {
